@@ -592,6 +592,24 @@ def layer1_shard(spec):
 # invariants only (the reference parser does not model the function-name and vertical-bar heuristics)
 # ---------------------------------------------------------------------------------------------
 MATCH = {"(": ")", "[": "]", "{": "}", "⟨": "⟩", "⌈": "⌉", "⌊": "⌋"}
+SAME = []          # fences whose opening and closing character are the same and that are not governed by the vertical-bar heuristics
+
+
+def _extend_fences():
+    """every other bracket pair of the dictionary (left fence whose next code point is a right fence), and the same-character fences"""
+    d = load_dict()
+    for t, f in sorted(d.items()):
+        if len(t) != 1 or "LEFT_FENCE" not in f or t in MATCH or t in "|‖‘“":
+            continue
+        if "RIGHT_FENCE" in f and len(f) == 2:
+            SAME.append(t)
+            continue
+        partner = chr(ord(t) + 1)
+        if "RIGHT_FENCE" in d.get(partner, {}) and "LEFT_FENCE" not in d.get(partner, {}):
+            MATCH[t] = partner
+
+
+_extend_fences()
 
 
 def idiom(rng, d):
@@ -641,6 +659,18 @@ def idiom(rng, d):
             inner = head + [mo(o), mo(MATCH[o])] + ([mo(rng.choice(common)), v()] if rng.random() < 0.5 else [])
             kids = ([v(), mo("=")] if rng.random() < 0.4 else []) + [mo(o2)] + inner + [mo(MATCH[o2])]
         return kids, "empty-fences"
+    if k < 0.975 and SAME:
+        # a fence whose two forms are one character, opened right after an operand or an operator, closed in front of more of the row
+        F = rng.choice(SAME)
+        inner = rng.choice([lambda: [v()], lambda: [v(), mo(rng.choice(common)), v()], lambda: [mn(str(rng.randint(2, 9))), v()]])()
+        head = rng.choice([[mn(str(rng.randint(2, 9)))], [v(), mo(rng.choice(common))], [v(), mo(rng.choice(common)), v()], []])
+        kids = head + [mo(F)] + inner + [mo(F)]
+        if rng.random() < 0.5:
+            kids += [mo(rng.choice(common)), v()]
+        if rng.random() < 0.25:
+            o = rng.choice(list(MATCH))
+            kids = [mo(o)] + kids + [mo(MATCH[o])] + ([mo("!")] if rng.random() < 0.4 else [])
+        return kids, "same-character-fences"
     o1, o2 = rng.sample(list(MATCH), 2)
     return [mo(o1), v(), mo(rng.choice(common)), mo(o2), v(), mo(rng.choice(common)), v(), mo(MATCH[o2]), mo(MATCH[o1]), mo(rng.choice(common)), v()], "nested-fences"
 
@@ -665,6 +695,11 @@ def fence_problems(root):
                 last = kids[-1]
                 if i != 0 or mml.local(last.tag) != "mo" or (last.text or "") != MATCH[t]:
                     out.append(("unmatched-fence", "open fence %s is child %d of %d in a row that ends with %r" % (t, i + 1, len(kids), (last.text or mml.local(last.tag)))))
+            elif t in SAME:
+                ends = [j for j in (0, len(kids) - 1) if mml.local(kids[j].tag) == "mo" and (kids[j].text or "") == t]
+                if i not in (0, len(kids) - 1) or len(ends) != 2 or len(kids) < 2:
+                    out.append(("unmatched-fence", "fence %s is child %d of %d in a row that starts with %r and ends with %r" % (
+                        t, i + 1, len(kids), kids[0].text or mml.local(kids[0].tag), kids[-1].text or mml.local(kids[-1].tag))))
     return out
 
 
@@ -675,7 +710,12 @@ def kids_balanced(kids):
         t = k.text or ""
         if k.tag != "mo":
             continue
-        if t in MATCH:
+        if t in SAME:
+            if stack and stack[-1] == t:
+                stack.pop()
+            else:
+                stack.append(t)
+        elif t in MATCH:
             stack.append(MATCH[t])
         elif t in MATCH.values():
             if not stack or stack.pop() != t:
